@@ -168,4 +168,42 @@ theorem floor_eventually_const {a : ℝ} (h : ∀ n : ℤ, a ≠ n) : ∀ᶠ t i
 theorem hasDerivAt_floor {a : ℝ} (h : ∀ n : ℤ, a ≠ n) : HasDerivAt (fun t : ℝ => (⌊t⌋ : ℝ)) 0 a :=
   hasDerivAt_of_eventually_const (floor_eventually_const h)
 
+/-- a locally constant function of a continuous function is locally constant -/
+theorem eventually_const_comp {f : ℝ → ℝ} {g : ℝ → ℝ} {a c : ℝ} (hf : ContinuousAt f a)
+    (hg : ∀ᶠ y in 𝓝 (f a), g y = c) : ∀ᶠ t in 𝓝 a, g (f t) = c := hf.eventually hg
+
+theorem lt_eventually_const {a b : ℝ} (h : a ≠ b) :
+    ∀ᶠ t in 𝓝 a, (if t < b then (1 : ℝ) else 0) = (if a < b then 1 else 0) := by
+  rcases lt_or_gt_of_ne h with hlt | hgt
+  · filter_upwards [Iio_mem_nhds hlt] with t ht
+    simp [hlt, (show t < b from ht)]
+  · filter_upwards [Ioi_mem_nhds hgt] with t ht
+    simp [not_lt.mpr hgt.le, not_lt.mpr (le_of_lt (show b < t from ht))]
+
+theorem gt_eventually_const {a b : ℝ} (h : a ≠ b) :
+    ∀ᶠ t in 𝓝 a, (if b < t then (1 : ℝ) else 0) = (if b < a then 1 else 0) := by
+  rcases lt_or_gt_of_ne h with hlt | hgt
+  · filter_upwards [Iio_mem_nhds hlt] with t ht
+    simp [not_lt.mpr hlt.le, not_lt.mpr (le_of_lt (show t < b from ht))]
+  · filter_upwards [Ioi_mem_nhds hgt] with t ht
+    simp [hgt, (show b < t from ht)]
+
+theorem eq_eventually_const {a b : ℝ} (h : a ≠ b) : ∀ᶠ t in 𝓝 a, (if t = b then (1 : ℝ) else 0) = 0 := by
+  filter_upwards [isOpen_ne.mem_nhds h] with t ht
+  simp [show t ≠ b from ht]
+
+theorem eq_eventually_const' {a b : ℝ} (h : a ≠ b) : ∀ᶠ t in 𝓝 a, (if b = t then (1 : ℝ) else 0) = 0 := by
+  filter_upwards [isOpen_ne.mem_nhds h] with t ht
+  simp [show b ≠ t from fun e => ht e.symm]
+
+theorem hasDerivAt_fdiv_left {a b : ℝ} (h : ∀ n : ℤ, a / b ≠ n) :
+    HasDerivAt (fun t : ℝ => (⌊t / b⌋ : ℝ)) 0 a :=
+  hasDerivAt_of_eventually_const (c := (⌊a / b⌋ : ℝ))
+    (eventually_const_comp (f := fun t => t / b) (g := fun y => (⌊y⌋ : ℝ)) (continuousAt_id.div_const b) (floor_eventually_const h))
+
+theorem hasDerivAt_fdiv_right {a b : ℝ} (hb : b ≠ 0) (h : ∀ n : ℤ, a / b ≠ n) :
+    HasDerivAt (fun t : ℝ => (⌊a / t⌋ : ℝ)) 0 b :=
+  hasDerivAt_of_eventually_const (c := (⌊a / b⌋ : ℝ))
+    (eventually_const_comp (f := fun t => a / t) (g := fun y => (⌊y⌋ : ℝ)) (continuousAt_const.div continuousAt_id hb) (floor_eventually_const h))
+
 end NutilsVerif.C04
